@@ -116,8 +116,9 @@ inductive Tok
   | tmo (b : Bool)
   | bret (r : Ret)
   | commit (f : Fid)                      -- the fetch_or that publishes a run request for `f`
-  | claimed (st : Nat)                    -- an event buffer was handed out and stamped
+  | claimed (st : Nat)                    -- the compare-exchange handing out an event buffer (to be stamped `st`)
   | done (lvl : Nat) (c : ICall) (r : IRes) (n : Nat)
+  | threadBegin                           -- a sender on another thread enters its call
   | mret (c : MCall) (self : Option Fid) (wake : BitVec 32) (b : Bool) (n : Nat)
   | hang
   deriving DecidableEq, Repr
@@ -156,7 +157,8 @@ def HANDLER : Fid := 0
 def initWith (eqDepth : Nat) (kinds : List Kind) (budgets : List Nat) : S :=
   { eq := Librfn.Model.MessageqConc.init eqDepth 4 3
     kind := fun f => if f = HANDLER then .handler else (kinds[f - 1]?).getD .waiter
-    budget := fun f => if f = HANDLER then 0 else (budgets[f - 1]?).getD 0 }
+    budget := fun f => if f = HANDLER then 0 else (budgets[f - 1]?).getD 0
+    a := { nf := kinds.length + 1 } }
 
 def init : S := initWith 4 [] []
 
@@ -182,8 +184,11 @@ def afterClaim (q : MQ) (i : Nat) (got null again : IPc) : IPc :=
 def senderAtomic (i : Nat) (s : S) : S :=
   match s.ipc i with
   | .evClaim st =>
-    { s with eq := mqStep s.eq (.sender i false st)
-             ipc := upd s.ipc i (afterClaim (mqStep s.eq (.sender i false st)) i (.evClaimed st) (.evNull st) (.evClaim st)) }
+    match afterClaim (mqStep s.eq (.sender i false st)) i (.evClaimed st) (.evNull st) (.evClaim st) with
+    | .evClaimed st' =>
+      -- the compare-exchange that fixes the buffer: the event takes its place in the queue at this instant
+      tok (.claimed st) (emit (.evClaimed st) { s with eq := mqStep s.eq (.sender i false st), ipc := upd s.ipc i (.evClaimed st') })
+    | pc => { s with eq := mqStep s.eq (.sender i false st), ipc := upd s.ipc i pc }
   | .evTaint st => { s with taint := s.taint ||| 16#32, ipc := upd s.ipc i (.evTainted st) }       -- 1 << ('E' - 'A')
   | .evSend st => { s with eq := mqStep s.eq (.sender i false st), ipc := upd s.ipc i (.evSent st) }
   | .raClaim f ev =>
@@ -201,7 +206,7 @@ def finishSender (i : Nat) (r : IRes) (s : S) : S := { s with ipc := upd s.ipc i
 def senderPlain (i : Nat) (s : S) : S :=
   match s.ipc i with
   | .evClaimed st =>     -- *p = stamp
-    tok (.claimed st) (emit (.evClaimed st) { s with eq := mqStep s.eq (.sender i false st), ipc := upd s.ipc i (.evSend st) })
+    { s with eq := mqStep s.eq (.sender i false st), ipc := upd s.ipc i (.evSend st) }
   | .evNull st => { s with ipc := upd s.ipc i (.evTaint st) }
   | .evTainted _ => finishSender i .noBuffer s
   | .evSent st => { s with ipc := upd s.ipc i (.raClaim HANDLER (some st)) }     -- return fibre_run_atomic(&evtq->fibre)
@@ -228,8 +233,8 @@ def finishPass (s : S) (v : BitVec 32) : S :=
 /-- the entry point returned `r`: `kernel.state = r; if (r == YIELDED) return kernel.now;` else `get_next_wakeup()` -/
 def returned (s : S) (r : Ret) : S :=
   if r = .yielded then
-    finishPass (emit .bodyYielded (tok (.bret r) { s with k := { s.k with state := r } })) s.k.now
-  else tok (.bret r) { s with k := { s.k with state := r }, mpc := .wake }
+    finishPass (emit (.bodyReturned true) (tok (.bret r) { s with k := { s.k with state := r } })) s.k.now
+  else emit (.bodyReturned false) (tok (.bret r) { s with k := { s.k with state := r }, mpc := .wake })
 
 /-- `kernel.current->fn(kernel.current)` for `kernel.current = c`, up to its first atomic operation or its return -/
 def body (s : S) (c : Fid) : S :=
@@ -287,13 +292,13 @@ def wakeValue (k : K) (e : Bool) : BitVec 32 :=
 /-- the next atomic operation of the main context -/
 def mainAtomic (s : S) : S :=
   match s.mpc with
-  | .fast => tok .look (emit .finalCheck { s with mpc := .fastDone (mqEmpty s.aq) })
+  | .fast => tok .look (emit .looked { s with mpc := .fastDone (mqEmpty s.aq) })
   | .recv c => { s with aq := mqStep s.aq (.recv false), mpc := .recvd c }
   | .rel c => { s with aq := mqStep s.aq (.recv false), mpc := .reld c }
   | .taintF => { s with taint := s.taint ||| 32#32, mpc := .taintFd }              -- 1 << ('F' - 'A')
   | .hRecv => { s with eq := mqStep s.eq (.recv false), mpc := .hRecvd }
   | .hRel => { s with eq := mqStep s.eq (.recv false), mpc := .hReld }
-  | .wake => tok .look (emit .finalCheck { s with mpc := .woke (mqEmpty s.aq) })
+  | .wake => tok .look (emit .looked { s with mpc := .woke (mqEmpty s.aq) })
   | _ => s
 
 /-- the plain code of the main context up to its next atomic operation (or to the return of the call) -/
@@ -412,7 +417,7 @@ def runItem (s : S) (it : Item) : S :=
   match it with
   | .main m => runMItem s m
   | .isr e => runIsr s e
-  | .thread c script => callSender (threadGap script) 2 c s
+  | .thread c script => emit .threadEnd (callSender (threadGap script) 2 c (tok .threadBegin (emit .threadBegin s)))
   | .quiesce => quiesceLoop 64 { s with budget := fun _ => 0 }
 
 /-- number of scripted calls of an item (to report the ones whose gap never came up) -/
